@@ -38,13 +38,18 @@ type engine struct {
 	Pkg   string // harness package
 	Kind  string
 	Sync  bool // rewrite sync.Mutex in capture packages
-	Props []string
+	// SingleP runs the worker processes with GOMAXPROCS=1: after a channel hand-over inside goProbe
+	// (three-point lock confirmation, semaphore release) two goroutines are runnable at once and
+	// race to their next seam; with one P the Go scheduler resolves that the same way every time
+	SingleP bool
+	Props   []string
 }
 
 var engines = []engine{
 	{Name: "store-sim", Pkg: "./harness/store", Kind: "real storage/writer/reader/query code over simulated disk; histories, restarts, kills, I/O errors", Props: []string{"C01", "C03", "C04", "C05", "C12", "C26"}},
 	{Name: "query-sim", Pkg: "./harness/query", Kind: "real query engine over a database written by the real writer; worker count, memory mode, goroutine schedule and reader/writer interleaving decided by the simulator", Props: []string{"C06", "C08", "C11", "C30", "C31"}},
-	{Name: "capture-sim", Pkg: "./harness/capture", Sync: true, Kind: "real capture manager with simulated packet sources, fake clock, simulated disk and seeded scheduler at every seam (source calls, mutexes, file-system operations)", Props: []string{"C20", "C21", "C22", "C23", "C27", "C29"}},
+	{Name: "capture-sim", Pkg: "./harness/capture", Sync: true, SingleP: true, Kind: "real capture manager with simulated packet sources, fake clock, simulated disk and seeded scheduler at every seam (source calls, mutexes, file-system operations)", Props: []string{"C20", "C21", "C22", "C23", "C27", "C29"}},
+	{Name: "dist-sim", Pkg: "./harness/dist", SingleP: true, Kind: "real distributed query runner, API client querier and HTTP client stack over a simulated transport and clock; reply order, delays, losses, errors and partitions decided by the simulator", Props: []string{"C15", "C31"}},
 	{Name: "merge-sim", Pkg: "./harness/merge", Kind: "real MergeDatabases over a read-only source disk and a destination disk; generated database pairs; kills at every mutating operation", Props: []string{"C24", "C25"}},
 }
 
@@ -79,18 +84,28 @@ var propCfgs = map[string]propCfg{
 	"C22": {Level: "exploration", Quick: tierCfg{Runs: 40000, BudgetS: 35, MinS: 30}, Thorough: tierCfg{Runs: 4000000, BudgetS: 600, MinS: 120}},
 	"C27": {Level: "exploration", Quick: tierCfg{Runs: 40000, BudgetS: 40, MinS: 30}, Thorough: tierCfg{Runs: 4000000, BudgetS: 600, MinS: 120}},
 	"C29": {Level: "exploration", Quick: tierCfg{Runs: 40000, BudgetS: 40, MinS: 30}, Thorough: tierCfg{Runs: 4000000, BudgetS: 600, MinS: 120}},
+	"C15": {Level: "exploration", Quick: tierCfg{Runs: 40000, BudgetS: 40, MinS: 30}, Thorough: tierCfg{Runs: 4000000, BudgetS: 600, MinS: 120}},
 	"C05": {Level: "fault_enumeration", Quick: tierCfg{Runs: 96, BudgetS: 35, MinS: 30}, Thorough: tierCfg{Runs: 4000, BudgetS: 600, MinS: 120}},
 }
 
 func engineOf(id string) *engine {
+	if es := enginesOf(id); len(es) > 0 {
+		return es[0]
+	}
+	return nil
+}
+
+// enginesOf returns every engine that serves the property (C31 has an engine and a distributed variant).
+func enginesOf(id string) []*engine {
+	var out []*engine
 	for i := range engines {
 		for _, p := range engines[i].Props {
 			if p == id {
-				return &engines[i]
+				out = append(out, &engines[i])
 			}
 		}
 	}
-	return nil
+	return out
 }
 
 func die(format string, a ...any) {
@@ -174,14 +189,47 @@ func main() {
 			die("mutant: %v", err)
 		}
 	}
-	bin, rw := build(verifDir, scratch, eng, mut, nil, "")
 	knownPath := filepath.Join(verifDir, "known_findings.json")
+	engs := enginesOf(id)
+	bins := map[string]string{}
+	var rw *rewrite.Result
+	for _, e := range engs {
+		b, w := build(verifDir, scratch, e, mut, nil, "-"+e.Name)
+		bins[e.Name] = b
+		if rw == nil {
+			rw = w
+		}
+	}
 	if *replay != "" {
+		// the replay file names the engine that produced it
+		var rf h.ReplayFile
+		if b, err := os.ReadFile(*replay); err == nil {
+			_ = json.Unmarshal(b, &rf)
+		}
+		bin := bins[eng.Name]
+		if b, ok := bins[rf.Engine]; ok {
+			bin = b
+		}
 		os.Exit(runReplay(bin, id, *replay, *tier, knownPath))
 	}
-	// run workers
-	results := runWorkers(bin, scratch, id, *tier, *seedFlag, *workers, tc, knownPath, false)
-	code := aggregate(verifDir, scratch, bin, id, eng, cfg, *tier, *seedFlag, tc, results, rw, start, knownPath, !*noEvidence, mut)
+	// run workers (the engines of a property share the wall budget)
+	var results []*h.WorkerResult
+	etc := tc
+	if len(engs) > 1 {
+		etc.BudgetS = tc.BudgetS/len(engs) + 1
+	}
+	for _, e := range engs {
+		rs := runWorkers(bins[e.Name], scratch, id, *tier, *seedFlag, *workers, etc, knownPath, false)
+		for _, r := range rs {
+			if r != nil {
+				for i := range r.Violations {
+					r.Violations[i].Engine = e.Name
+				}
+			}
+		}
+		results = append(results, rs...)
+	}
+	code := aggregate(verifDir, scratch, bins, id, eng, cfg, *tier, *seedFlag, tc, results, rw, start, knownPath, !*noEvidence, mut)
 	if !*keep {
 		os.RemoveAll(scratch)
 	}
@@ -236,6 +284,12 @@ func build(verifDir, scratch string, eng *engine, mut *mutant, extraTags []strin
 }
 
 func runWorkers(bin, scratch, id, tier string, seed int64, workers int, tc tierCfg, knownPath string, det bool) []*h.WorkerResult {
+	gmp := envOr("VERIF_GOMAXPROCS", "2")
+	for i := range engines {
+		if engines[i].SingleP && strings.Contains(filepath.Base(bin), engines[i].Name) {
+			gmp = "1"
+		}
+	}
 	if workers > tc.Runs {
 		workers = tc.Runs
 	}
@@ -255,7 +309,7 @@ func runWorkers(bin, scratch, id, tier string, seed int64, workers int, tc tierC
 				"VERIF_PROP="+id, "VERIF_MODE=batch", "VERIF_TIER="+tier,
 				fmt.Sprintf("VERIF_SEED=%d", seed), fmt.Sprintf("VERIF_FROM=%d", w), fmt.Sprintf("VERIF_TO=%d", tc.Runs), fmt.Sprintf("VERIF_STRIDE=%d", workers),
 				fmt.Sprintf("VERIF_BUDGET_S=%d", tc.BudgetS), fmt.Sprintf("VERIF_MIN_BUDGET_S=%d", tc.MinS),
-				"VERIF_OUT="+out, "VERIF_KNOWN="+knownPath, "GOMAXPROCS="+envOr("VERIF_GOMAXPROCS", "2"))
+				"VERIF_OUT="+out, "VERIF_KNOWN="+knownPath, "GOMAXPROCS="+gmp)
 			if det {
 				cmd.Env = append(cmd.Env, "VERIF_DET=1")
 			}
@@ -323,6 +377,15 @@ func crashViolation(id, output, marker string, seed int64) *h.VRec {
 	return &h.VRec{Property: id, Clause: "process-crash", Signature: "panic in " + fn, Detail: strings.Join(lines, "\n"), Seed: seed, RunIndex: idx, RunSeed: rs, Count: done}
 }
 
+func gmpFor(bin string) string {
+	for i := range engines {
+		if engines[i].SingleP && strings.Contains(filepath.Base(bin), engines[i].Name) {
+			return "1"
+		}
+	}
+	return "2"
+}
+
 func tail(s string, n int) string {
 	if len(s) > n {
 		return "…" + s[len(s)-n:]
@@ -333,7 +396,7 @@ func tail(s string, n int) string {
 func runReplay(bin, id, file, tier, knownPath string) int {
 	abs, _ := filepath.Abs(file)
 	cmd := exec.Command(bin, "-test.run", "^TestSim$", "-test.timeout", "0", "-test.v")
-	cmd.Env = append(os.Environ(), "VERIF_PROP="+id, "VERIF_MODE=replay", "VERIF_TIER="+tier, "VERIF_REPLAY="+abs, "VERIF_KNOWN="+knownPath, "GOMAXPROCS=2")
+	cmd.Env = append(os.Environ(), "VERIF_PROP="+id, "VERIF_MODE=replay", "VERIF_TIER="+tier, "VERIF_REPLAY="+abs, "VERIF_KNOWN="+knownPath, "GOMAXPROCS="+gmpFor(bin))
 	var buf bytes.Buffer
 	cmd.Stdout, cmd.Stderr = &buf, &buf
 	err := cmd.Run()
@@ -379,7 +442,7 @@ func replayClass(bin, id, file, tier, knownPath string) (string, string) {
 func replayClassOnce(bin, id, file, tier, knownPath string) (string, string) {
 	out := file + ".result"
 	cmd := exec.Command(bin, "-test.run", "^TestSim$", "-test.timeout", "0")
-	cmd.Env = append(os.Environ(), "VERIF_PROP="+id, "VERIF_MODE=replay", "VERIF_TIER="+tier, "VERIF_REPLAY="+file, "VERIF_OUT="+out, "VERIF_KNOWN="+knownPath, "GOMAXPROCS=4")
+	cmd.Env = append(os.Environ(), "VERIF_PROP="+id, "VERIF_MODE=replay", "VERIF_TIER="+tier, "VERIF_REPLAY="+file, "VERIF_OUT="+out, "VERIF_KNOWN="+knownPath, "GOMAXPROCS="+gmpFor(bin))
 	var buf bytes.Buffer
 	cmd.Stdout, cmd.Stderr = &buf, &buf
 	_ = cmd.Run()
@@ -415,7 +478,7 @@ func repoState() string {
 	return s
 }
 
-func aggregate(verifDir, scratch, bin, id string, eng *engine, cfg propCfg, tier string, seed int64, tc tierCfg, results []*h.WorkerResult, rw *rewrite.Result,
+func aggregate(verifDir, scratch string, bins map[string]string, id string, eng *engine, cfg propCfg, tier string, seed int64, tc tierCfg, results []*h.WorkerResult, rw *rewrite.Result,
 	start time.Time, knownPath string, writeEvidence bool, mut *mutant) int {
 	total := &h.WorkerResult{Faults: map[string]int{}, Probes: map[string]int{}, Shapes: map[string]int{}}
 	distinct := map[uint64]bool{}
@@ -517,6 +580,10 @@ func aggregate(verifDir, scratch, bin, id string, eng *engine, cfg propCfg, tier
 		b, _ := json.MarshalIndent(rf, "", " ")
 		if err := os.WriteFile(path, b, 0o644); err != nil {
 			die("write replay: %v", err)
+		}
+		bin := bins[eng.Name]
+		if b, ok := bins[v.Engine]; ok {
+			bin = b
 		}
 		got, problem := replayClass(bin, id, path, tier, knownPath)
 		if got != c {
